@@ -9,7 +9,7 @@ use serde_json::{json, Value};
 use std::collections::BTreeSet;
 
 pub fn base_cfg(role: Role, len: usize, blk: usize, ws: u16) -> XCfg {
-    XCfg { role, blk, ws, len, handshake: false, timeout_s: 5, repeat: 1, clean: true, alpha: 0, silence_after: None, error_at: None, ack_every_copy: false, snapshot_tail: false, noise: None, noise_resume: false, send_fail_at: None }
+    XCfg { role, blk, ws, len, handshake: false, timeout_s: 5, repeat: 1, clean: true, alpha: 0, silence_after: None, error_at: None, ack_every_copy: false, snapshot_tail: false, noise: None, noise_resume: false, send_fail_at: None, error_latin1: false }
 }
 
 pub fn cell_spec(cfg: &XCfg, bound: u64, max_exec: u64, props: &[&str]) -> Value {
@@ -292,6 +292,12 @@ pub fn c07_cells(tier: Tier) -> Vec<Value> {
                         c3.alpha = 3;
                         c3.error_at = Some(k);
                         cells.push(cell_spec(&c3, 0, MAXE, &p));
+                        if !hs || tier == Tier::Thorough {
+                            // the same with an ERROR whose (NUL-terminated) message is not UTF-8
+                            let mut c3b = c3.clone();
+                            c3b.error_latin1 = true;
+                            cells.push(cell_spec(&c3b, 0, MAXE, &p));
+                        }
                         if tier == Tier::Thorough {
                             // one deviation before the silence / the error
                             let mut c4 = cfg.clone();
